@@ -56,6 +56,10 @@ func pickLen(rng *rand.Rand) int {
 	if rng.IntN(4) == 0 {
 		return rng.IntN(700)
 	}
+	if rng.IntN(150) == 0 {
+		// now and then a length beyond 16 bits (length framing, block loops over hundreds of blocks)
+		return []int{65535, 65536, 65537, 70001, 131072 + 165}[rng.IntN(5)]
+	}
 	return lens[rng.IntN(len(lens))]
 }
 
